@@ -88,6 +88,58 @@ func c07Handler(r *world.Rng, nmi bool) (ins []string, pushes int) {
 	return ins, 2 + len(used)
 }
 
+// handlerSet is the interrupt side of a structured-program world.
+type handlerSet struct {
+	Handlers []gen.CodeSeg
+	Table    []world.Seg
+	Kinds    []world.Event // NMI first, then the maskable kinds valid in this mode
+	Pushes   int
+	HSteps   int
+}
+
+// genHandlers builds transparent handlers behind JP pads in the low page
+// (RST targets, 0x0066), a mode-2 target with its table entry and a mode-0
+// CALL target.
+func genHandlers(r *world.Rng, mode int) handlerSet {
+	var hs handlerSet
+	haddr := uint16(c07HBase)
+	place := func(pad uint16, nmi bool) {
+		ins, pushes := c07Handler(r, nmi)
+		if pushes > hs.Pushes {
+			hs.Pushes = pushes
+		}
+		if len(ins)+2 > hs.HSteps {
+			hs.HSteps = len(ins) + 2 // + acceptance Step + the JP pad
+		}
+		hs.Handlers = append(hs.Handlers, gen.CodeSeg{Addr: haddr, Ins: ins})
+		if pad != 0xffff {
+			hs.Handlers = append(hs.Handlers, gen.CodeSeg{Addr: pad, Ins: []string{hex.EncodeToString([]uint8{0xc3, uint8(haddr), uint8(haddr >> 8)})}})
+		}
+		haddr += 0x80
+	}
+	for t := 0; t < 8; t++ {
+		place(uint16(t*8), false)
+	}
+	place(0x0066, true)
+	t2 := haddr
+	place(0xffff, false)
+	tc := haddr
+	place(0xffff, false)
+	vec := uint8(r.Intn(128) * 2)
+	hs.Table = []world.Seg{world.MkSeg(uint16(c07Table)|uint16(vec), []uint8{uint8(t2), uint8(t2 >> 8)})}
+	hs.Kinds = []world.Event{{Kind: world.EvNMI}}
+	switch mode {
+	case 0:
+		hs.Kinds = append(hs.Kinds, world.Event{Kind: world.EvINT, Data: hex.EncodeToString([]uint8{0xc7 | uint8(r.Intn(8))<<3})})
+		hs.Kinds = append(hs.Kinds, world.Event{Kind: world.EvINT, Data: hex.EncodeToString([]uint8{0xcd, uint8(tc), uint8(tc >> 8)})})
+	case 1:
+		hs.Kinds = append(hs.Kinds, world.Event{Kind: world.EvINT, Data: ""})
+	case 2:
+		hs.Kinds = append(hs.Kinds, world.Event{Kind: world.EvINT, Data: hex.EncodeToString([]uint8{vec})})
+	}
+	return hs
+}
+
 func (c07) Gen(r *world.Rng, tier string, n int) interface{} {
 	sc := &C07Sc{Counter: c07Counter, IOSeed: r.U64()}
 	blocks := r.Range(3, 14)
@@ -120,43 +172,9 @@ func (c07) Gen(r *world.Rng, tier string, n int) interface{} {
 	}
 	sc.Prog = *p
 
-	// handlers: JP pads in the low page, bodies from c07HBase
-	haddr := uint16(c07HBase)
-	place := func(pad uint16, nmi bool) {
-		ins, pushes := c07Handler(r, nmi)
-		if pushes > sc.Pushes {
-			sc.Pushes = pushes
-		}
-		if len(ins)+2 > sc.HSteps {
-			sc.HSteps = len(ins) + 2 // + acceptance Step + the JP pad
-		}
-		sc.Handlers = append(sc.Handlers, gen.CodeSeg{Addr: haddr, Ins: ins})
-		if pad != 0xffff {
-			sc.Handlers = append(sc.Handlers, gen.CodeSeg{Addr: pad, Ins: []string{hex.EncodeToString([]uint8{0xc3, uint8(haddr), uint8(haddr >> 8)})}})
-		}
-		haddr += 0x80
-	}
-	for t := 0; t < 8; t++ {
-		place(uint16(t*8), false)
-	}
-	place(0x0066, true)
-	t2 := haddr
-	place(0xffff, false)
-	tc := haddr
-	place(0xffff, false)
-	vec := uint8(r.Intn(128) * 2)
-	sc.Table = []world.Seg{world.MkSeg(uint16(c07Table)|uint16(vec), []uint8{uint8(t2), uint8(t2 >> 8)})}
-
-	kinds := []world.Event{{Kind: world.EvNMI}}
-	switch mode {
-	case 0:
-		kinds = append(kinds, world.Event{Kind: world.EvINT, Data: hex.EncodeToString([]uint8{0xc7 | uint8(r.Intn(8))<<3})})
-		kinds = append(kinds, world.Event{Kind: world.EvINT, Data: hex.EncodeToString([]uint8{0xcd, uint8(tc), uint8(tc >> 8)})})
-	case 1:
-		kinds = append(kinds, world.Event{Kind: world.EvINT, Data: ""})
-	case 2:
-		kinds = append(kinds, world.Event{Kind: world.EvINT, Data: hex.EncodeToString([]uint8{vec})})
-	}
+	hs := genHandlers(r, mode)
+	sc.Handlers, sc.Table, sc.Pushes, sc.HSteps = hs.Handlers, hs.Table, hs.Pushes, hs.HSteps
+	kinds := hs.Kinds
 	if n%4 != 3 {
 		sc.Mode = "enumerate"
 		sc.Kinds = kinds
